@@ -31,7 +31,7 @@ class SimThread:
     __slots__ = (
         "tid", "role", "lock", "parked", "state", "deadline", "block_kind",
         "block_obj", "woke", "pending_exc", "prio", "carrier", "exc",
-        "exc_tb", "harness_exc", "owner", "sim", "nsteps",
+        "exc_tb", "harness_exc", "owner", "sim", "nsteps", "daemon",
     )
 
     def __init__(self, sim, tid, role, owner=None):
@@ -56,6 +56,7 @@ class SimThread:
         # collectable while the run goes on (its finaliser is part of the
         # behaviour under test)
         self.owner = None
+        self.daemon = False
         self.nsteps = 0
 
     def __repr__(self):
@@ -256,6 +257,10 @@ class Sim:
         )
         st.state = RUNNABLE
         _ORIG_START(st.carrier)
+        # the carrier is a real daemon thread, but simulated code asking
+        # `current_thread().daemon` (e.g. Thread.__init__ inheriting the
+        # flag) must see the SIMULATED thread's flag: main is not a daemon
+        st.carrier._daemonic = False
         return st
 
     def _wake(self, t, how):
@@ -555,6 +560,20 @@ class Sim:
         else:
             self.sleep_interrupt = (st, exc)
 
+    def process_exit_seq(self):
+        """Event sequence number at which a real process would exit: when
+        the last non-daemon thread (main included) has ended.  Whatever a
+        daemon thread does after that never happens in reality."""
+        last = 0
+        roles = {t.role for t in self.threads if not t.daemon}
+        for e in self.log:
+            if e[2] == "exit" and e[1] in roles:
+                last = e[0]
+        return last
+
+    def daemon_roles(self):
+        return {t.role for t in self.threads if t.daemon}
+
     # ----------------------------------------------------------- pre-emption
     def _tracer(self, frame, event, arg):
         if frame.f_code.co_filename in self.trace_files:
@@ -620,6 +639,11 @@ def _sim_start(self):
         if inbox is not None and hasattr(inbox, "name"):
             inbox.name = role
         st = sim.spawn(role, self.run, owner=self)
+        try:
+            st.daemon = bool(self.daemon)
+        except Exception:
+            st.daemon = False
+        st.carrier._daemonic = st.daemon
         self._sim_thread = st
         # what a started thread looks like from outside
         try:
